@@ -88,6 +88,8 @@ class Poly:
         return r
 
     def __eq__(self, o):
+        if not isinstance(o, (Poly, int, Fraction)):
+            return False
         return (self - _p(o)).is_zero()
 
     def __hash__(self):
@@ -231,6 +233,8 @@ class Rat:
         return self.n.is_zero()
 
     def __eq__(self, o):
+        if not isinstance(o, (Rat, Poly, int, Fraction)):
+            return False
         o = _r(o)
         return (self.n * o.d - o.n * self.d).is_zero()
 
